@@ -1098,6 +1098,11 @@ def gen_mgmt(rng, focus, cfg, pool, has_arch):
         choices += [['overfill', [[enc(c[0]), enc(c[1])] for c in pool]]]
     if focus in ('C06',):
         choices = [['clear', None], ['clear', 1]] + ([['dump']] if has_arch else [])
+        if rng.random() < 0.3:
+            # entries that arrive without a call (bulk load, preloaded cache) have no recency - the policy is not
+            # judged for them - but "a hit never removes anything" holds in every state, also above the bound
+            choices = [['overfill', [[enc(c[0]), enc(c[1])] for c in pool]]] + \
+                ([['load'], ['archfill', [[enc(c[0]), enc(c[1])] for c in pool]]] if has_arch else [])
     if focus == 'C20':
         choices = [['clear', 1]] + ([['archived', 0], ['archived', 1], ['archived', 1], ['dump']] if has_arch else [])
     return rng.choice(choices)
